@@ -110,6 +110,14 @@ func at(tab []int, k int) time.Duration {
 
 const tolDefaultMs = 500
 
+// tolerance of the (drift only) lower bound of a gap: the tick is consumed before the call is stamped
+const lowTol = 100 * time.Millisecond
+
+const maxRecorded = 40 // calls of Notify recorded per delivery
+
+// the stages must have returned this long after the flush context is over
+const noReturnAfter = 4 * time.Second
+
 var tol = func() time.Duration {
 	if s := os.Getenv("C20P_TOL_MS"); s != "" {
 		if n, err := strconv.Atoi(s); err == nil && n > 0 {
@@ -146,7 +154,7 @@ type runObs struct {
 	Err      string    `json:"stage_err"`
 	LogMs    []int64   `json:"nflog_writes_ms"`
 	Entries  int       `json:"nflog_entries"`
-	LoadNote string    `json:"note,omitempty"`
+	NoReturn bool      `json:"stages_did_not_return,omitempty"`
 	end      time.Duration
 	ret      time.Duration
 }
@@ -174,6 +182,10 @@ type recNotifier struct {
 func (r *recNotifier) Notify(ctx context.Context, alerts ...*types.Alert) (bool, error) {
 	cs := r.cs
 	cs.mu.Lock()
+	if len(cs.atts) >= maxRecorded { // a loop that does not end: the first calls are enough to judge it
+		cs.mu.Unlock()
+		return r.inner.Notify(ctx, alerts...)
+	}
 	cs.cur++
 	a := &attObs{K: cs.cur, O: cs.c.outcome(cs.cur), start: cs.since(time.Now())}
 	cs.atts = append(cs.atts, a)
@@ -493,17 +505,33 @@ func (e *retryEnv) run(c *rcase, variant int) (*runObs, error) {
 		defer tm.Stop()
 	}
 	var (
-		serr error
-		pan  any
+		serr     error
+		pan      any
+		returned = make(chan struct{})
+		noReturn bool
 	)
-	func() {
+	go func() {
+		defer close(returned)
 		defer func() { pan = recover() }()
 		_, _, serr = stages.Exec(ctx, logger, alerts...)
 	}()
+	select {
+	case <-returned:
+	case <-time.After(over + noReturnAfter):
+		// the stages are still running long after the flush context is over: abandoned (judged as such)
+		noReturn = true
+	}
 	ret := cs.since(time.Now())
 	close(cs.done)
-	if pan != nil {
-		return nil, fmt.Errorf("stages panic: %v", pan)
+	var stageErr error
+	if noReturn {
+		cancel()
+		stageErr = fmt.Errorf("(harness) the stages had not returned %s after the flush context was over", noReturnAfter)
+	} else {
+		if pan != nil {
+			return nil, fmt.Errorf("stages panic: %v", pan)
+		}
+		stageErr = serr
 	}
 	if c.Cancel > 0 {
 		// the instant of the reload: as recorded just before the context was cancelled, or, when the
@@ -522,9 +550,17 @@ func (e *retryEnv) run(c *rcase, variant int) (*runObs, error) {
 	}
 	cs.mu.Lock()
 	defer cs.mu.Unlock()
-	o := &runObs{Attempts: cs.atts, end: over, ret: ret, EndMs: over.Milliseconds(), RetMs: ret.Milliseconds(), Entries: len(entries)}
-	if serr != nil {
-		o.Err = serr.Error()
+	atts := make([]*attObs, 0, len(cs.atts)) // copies: abandoned stages may still be running
+	for _, a := range cs.atts {
+		cp := *a
+		if cp.end == 0 && cp.Err == "" && noReturn {
+			cp.end, cp.Err, cp.CtxDone = ret, "(harness) attempt still in progress", true
+		}
+		atts = append(atts, &cp)
+	}
+	o := &runObs{Attempts: atts, NoReturn: noReturn, end: over, ret: ret, EndMs: over.Milliseconds(), RetMs: ret.Milliseconds(), Entries: len(entries)}
+	if stageErr != nil {
+		o.Err = stageErr.Error()
 	}
 	for _, l := range cs.logs {
 		o.LogMs = append(o.LogMs, l.Milliseconds())
@@ -656,7 +692,7 @@ func judgeRun(c *rcase, o *runObs) *verdict {
 					k, a.Why, ms(a.end), ms(o.ret), ms(o.end))
 			}
 			if !last {
-				if nx := o.Attempts[k]; nx.start < a.start+at(c.Lo, k)-5*time.Millisecond && nx.start < a.end+at(c.Lo, k)-5*time.Millisecond {
+				if nx := o.Attempts[k]; nx.start < a.start+at(c.Lo, k)-lowTol && nx.start < a.end+at(c.Lo, k)-lowTol {
 					add("drift", "gap_below_backoff", "attempt %d at %s .. %s, attempt %d already at %s (lower bound of the back-off %dms)", k, ms(a.start), ms(a.end), k+1, ms(nx.start), at(c.Lo, k).Milliseconds())
 				}
 			}
@@ -700,7 +736,9 @@ func judgeRun(c *rcase, o *runObs) *verdict {
 		}
 	}
 	// when the stages return
-	if o.ret > o.end+2*time.Second {
+	if o.NoReturn {
+		add("", "no_return_after_flush_over", "the flush context was over at %s, the stages had not returned at %s (%d calls of Notify so far): the flush never reports the failure", ms(o.end), ms(o.ret), n)
+	} else if o.ret > o.end+2*time.Second {
 		add("", "no_return_after_flush_over", "the flush context was over at %s, the stages returned only at %s", ms(o.end), ms(o.ret))
 	}
 	if n > 0 {
